@@ -404,6 +404,9 @@ class DB:
             self.consts.update(raw['consts'])
             self.traits.update(raw['traits'])
         self._callers = None
+        if not os.environ.get('LM_NO_INLINE'):
+            from . import inline
+            inline.apply(self)
 
     def fn(self, path):
         """Exact path, else unique short-name match; KeyError if absent/ambiguous."""
